@@ -1023,3 +1023,57 @@ def solve_degenerate(tier="quick", seed=0, only=None):
             seen.add(f["label"])
             uniq.append(f)
     return result(cases, uniq, f"degenerate problems {names} x step solvers {STEP_SOLVERS} x reporting options")
+
+
+@native("native.solve.precision", ["C06", "C05"])
+def solve_precision(tier="quick", seed=0, only=None):
+    """bounded: Precision.Single (outside the double-precision reading A4 of the symbolic units) on problems whose
+    bounds float32 cannot represent: solve() must not die from an internal assertion, x, y are float32 and finite,
+    and every evaluation point / the returned x stay inside the bounds rounded to the working precision"""
+    use_repo()
+    QP, NLP, Infeasible = _mk_problems()
+    inf = np.inf
+    D = {
+        "box_0.7_0.3": (lambda: QP([[1, 0], [0, 1]], [1, -1], np.zeros((0, 2)), [], [], [0.7, -1.0], [1.0, 0.3]), np.array([0.9, 0.0])),
+        "fixed_0.1_ranged_row": (lambda: QP([[2, 0], [0, 1]], [-1, 1], [[1, 1]], [0.1], [0.7], [0.1, -0.3], [0.1, 0.9]), np.array([0.1, 0.2])),
+        "eq_row_box_thirds": (lambda: QP([[1, 0.2, 0], [0.2, 1, 0], [0, 0, 1]], [1, -2, 0.5], [[1, 1, 1]], [1 / 3], [1 / 3], [-1 / 3, -1 / 3, -1 / 3], [1 / 3, 2 / 3, 1 / 3]), np.array([0.1, 0.1, 0.1])),
+    }
+    failures, cases = [], 0
+    for name, (mk, x0) in D.items():
+        for ss in STEP_SOLVERS:
+            for nt in (NEWTON[:2] if tier == "quick" else NEWTON):
+                inp = dict(problem=name, step_solver=ss, newton=nt)
+                if only is not None and only != inp:
+                    continue
+                problem = mk()
+                params = mk_params(step_solver_type=enum("StepSolverType", ss), newton_type=enum("NewtonType", nt), precision=enum("Precision", "Single"), iteration_limit=40)
+                rec = run(problem, params, x0, None, callbacks=False)
+                cases += 1
+                if rec.exc is not None:
+                    msg = str(rec.exc)
+                    ok = type(rec.exc) is Exception and msg.startswith(("Inverse step size", "Failed to evaluate initial iterate", "Line search failed"))
+                    if not ok:
+                        failures.append(dict(label=f"C06:internal_error_escapes_solve:{type(rec.exc).__name__}", input=inp, observed=f"{type(rec.exc).__name__}: {msg[:200]}"))
+                    continue
+                res = rec.result
+                if res.x.dtype != np.float32 or res.y.dtype != np.float32:
+                    failures.append(dict(label="C06:result_not_in_working_precision", input=inp, observed=f"{res.x.dtype} {res.y.dtype}"))
+                if not (np.all(np.isfinite(res.x)) and np.all(np.isfinite(res.y)) and np.all(np.isfinite(res.d))):
+                    failures.append(dict(label="C06:non-finite_result", input=inp, observed=str(res.status)))
+                # double-precision points (the user's own start) are judged against the user's bounds, float32
+                # points against the bounds rounded to float32: a point is fine when inside the hull of the two
+                lb32 = np.minimum(problem.var_lb.astype(np.float32).astype(float), problem.var_lb)
+                ub32 = np.maximum(problem.var_ub.astype(np.float32).astype(float), problem.var_ub)
+                n = problem.num_vars
+                pts = [("returned_x", np.asarray(res.x))] + [(k, np.asarray(x)) for (k, x) in rec.evals]
+                for k, x in pts:
+                    xx = x[:n]
+                    if not (np.all(lb32 <= xx) and np.all(xx <= ub32)):
+                        failures.append(dict(label=f"C05:single_precision:{'evaluation' if k != 'returned_x' else 'result'}_outside_working-precision_bounds", input=inp, observed=f"{k} at {xx!r}"))
+                        break
+    seen, uniq = set(), []
+    for f in failures:
+        if f["label"] not in seen:
+            seen.add(f["label"])
+            uniq.append(f)
+    return result(cases, uniq, f"single precision: problems {list(D)} x step solvers x Newton types")
